@@ -31,6 +31,7 @@ RECYCLE_CHUNKS = 5
 BUDGET_S = {"quick": 900, "thorough": 8000}
 
 OPS = ["newP", "newC", "relate", "q_explicit", "q_partial", "q_domainless", "drop"]
+ROLE_OPS = ["newE", "relate_role", "relate_head"]  # a role (CEO of the newest person) as source and as TARGET of a relation
 
 
 def cases(tier, seed):
@@ -39,6 +40,13 @@ def cases(tier, seed):
     for k in range(1, d + 1):
         for seq in itertools.product(OPS, repeat=k):
             if "newP" not in seq and "newC" not in seq:
+                continue
+            out.append(seq)
+    # the role pattern: one depth less, with the three role operations added
+    ops2 = OPS + ROLE_OPS
+    for k in range(2, d):
+        for seq in itertools.product(ops2, repeat=k):
+            if "newE" not in seq or "newP" not in seq:
                 continue
             out.append(seq)
     return out
@@ -96,7 +104,24 @@ def body(seq, rep, census, touched, related=None, states=None):
         n += 1
         ps = [o for k, o in live if k == "P"]
         cs = [o for k, o in live if k == "C"]
-        if op == "newP":
+        es = [o for k, o in live if k == "E"]
+        if op == "newE":
+            if ps:
+                o = _O.VCEO(ps[-1])
+                live.append(("E", o)); census.append((f"e{rep}_{n}", weakref.ref(o)))
+                related.append((f"e{rep}_{n}", ps[-1].name))
+        elif op == "relate_role":
+            # the role instance is the TARGET: the inverse lives on its role taker
+            if es and cs:
+                cs[-1].members.add(es[-1])
+                ename = [nm for nm, w in census if w() is es[-1]][0]
+                related.append((ename, cs[-1].name)); related.append((es[-1].person.name, cs[-1].name))
+        elif op == "relate_head":
+            if es and cs and es[-1].head_of is None and es[-1].person.works_for is None:
+                es[-1].head_of = cs[-1]
+                ename = [nm for nm, w in census if w() is es[-1]][0]
+                related.append((ename, cs[-1].name)); related.append((es[-1].person.name, cs[-1].name))
+        elif op == "newP":
             o = _O.VPerson(f"p{rep}_{n}")
             live.append(("P", o)); census.append((o.name, weakref.ref(o)))
         elif op == "newC":
@@ -125,7 +150,7 @@ def body(seq, rep, census, touched, related=None, states=None):
         elif op == "drop":
             if live:
                 live.pop(0)
-        o = ps = cs = None
+        o = ps = cs = es = None
         g = SymbolGraph()
         states.append((op, sum(1 for _, w in census if w() is not None), len(g._instance_graph.nodes()),
                        len(g._instance_graph.edges())))
@@ -185,7 +210,8 @@ def run_case(seq):
             # the objects are dead now; continue with the remaining oracles
         # a domain-less query sweeps dead instances and must see nothing
         try:
-            seen = list(an(entity(let(_O.VPerson, None))).evaluate()) + list(an(entity(let(_O.VCompany, None))).evaluate())
+            seen = (list(an(entity(let(_O.VPerson, None))).evaluate()) + list(an(entity(let(_O.VCompany, None))).evaluate())
+                    + list(an(entity(let(_O.VCEO, None))).evaluate()))
         except Exception as e:
             res.failures.append(Failure("crash", f"{seq} repetition {rep}: census query raised {type(e).__name__}: {e}"))
             break
